@@ -1271,6 +1271,35 @@ Section Pool.
   Qed.
 End Pool.
 
+(* data-race freedom: in every reachable state of every schedule, the next memory operation of a
+   thread is on the cell that thread allocated itself, and no two threads own the same cell; this
+   is what justifies treating Load / Store as atomic steps *)
+Theorem pool_race_free {R} (ps : list (prog R)) :
+  (forall p, In p ps -> scoped p) ->
+  forall sched h0,
+  (forall i t, nth_error (snd (run_pool sched (h0, map spawn ps))) i = Some t ->
+     match t_prog t with
+     | Load l _ => t_loc t = Some l
+     | Store l _ _ => t_loc t = Some l
+     | _ => True
+     end) /\
+  (forall i j ti tj l,
+     nth_error (snd (run_pool sched (h0, map spawn ps))) i = Some ti ->
+     nth_error (snd (run_pool sched (h0, map spawn ps))) j = Some tj ->
+     t_loc ti = Some l -> t_loc tj = Some l -> i = j).
+Proof.
+  intros Hsc sched h0.
+  destruct (pinv_run ps Hsc [] sched _ (pinv_init ps [] h0)) as [_ [Hall Huniq]].
+  split; [|exact Huniq].
+  intros i t Ht. destruct (Hall i t Ht) as [p0 [Hp0 Hinv]]. unfold tinv in Hinv.
+  destruct (t_loc t) as [l|].
+  - destruct Hinv as [_ [l' [p' [h' [_ [Hsim _]]]]]].
+    destruct (t_prog t); try exact I; inversion Hsim; reflexivity.
+  - destruct Hinv as [Hp _]. rewrite Hp.
+    assert (Hs : scoped p0) by (apply Hsc; eapply nth_error_In; exact Hp0).
+    destruct p0; try exact I; destruct Hs.
+Qed.
+
 (** * C15 theorems about [handle_request] *)
 
 Definition reqspec := (config * ctx * option request)%type.
